@@ -196,6 +196,17 @@ def judge_factory(rec, cfg):
                 if p != 0 and a["kind"] == "worker":
                     seen[p] = seen.get(p, 0) + 1
                     if seen[p] == 2: offer[p] = a["t"]
+            # the item is offered downstream only when its processing delay has elapsed: a worker's first activation starts the timer and
+            # does nothing else (a space request placed earlier holds a place that a finished item of another worker could use)
+            first_act = {}
+            for a in acts:
+                if a["proc"] != 0 and a["kind"] == "worker" and a["proc"] not in first_act:
+                    first_act[a["proc"]] = a
+            for pn, a in first_act.items():
+                early = [x for x in a["calls"] if x.startswith(("rp ", "can ", "put "))]
+                if early and any(x.startswith("wait ") for x in a["calls"]):
+                    v("C08", "early-offer", f"machine {nid}: worker {pn} at t={a['t']} asked its out-edge ({early[0]}) before its processing delay had elapsed: "
+                                            f"the item is offered downstream exactly one processing delay after it was pulled, not earlier")
             for k, (pn, t0) in enumerate(spawned):
                 if k < len(pds) and pn in offer and offer[pn] != t0 + pds[k]:
                     v("C08", "delay", f"machine {nid}: item pulled at {t0} with processing delay {pds[k]} was offered downstream at {offer[pn]}")
@@ -584,6 +595,15 @@ def finalize_and_judge_states(rec, cfg, T):
                     if start is not None: procI.append((start, T))
                     for p, L in seen.items():
                         blkI.append((L[0]["t"], L[-1]["t"] if not L[-1]["alive"] else T))
+                if kind == "combiner":
+                    # one unit of work at a time: the next pallet is not processed while the previous finished pallet is still in the
+                    # combiner's hands (its worker has not ended)
+                    for (ps, pe) in procI:
+                        for (ws, we) in blkI:
+                            if ws < ps < we:
+                                V.append(("C08", "two-units", f"combiner {nid}: the processing of a pallet started at t={ps} while the previous finished pallet "
+                                                              f"was still held by the combiner (its worker ran from t={ws} to t={we}): two units of work in hand"))
+                                break
                 mp = sum(min(b, T) - min(a_, T) for a_, b in procI); mb = sum(min(b, T) - min(a_, T) for a_, b in blkI)
                 m = dict(setup=min(setup_end, T), proc=mp, blocked=mb, idle=T - min(setup_end, T) - mp - mb)
                 got = dict(setup=f2t(tt["SETUP_STATE"]), proc=f2t(tt["PROCESSING_STATE"]), blocked=f2t(tt["BLOCKED_STATE"]), idle=f2t(tt["IDLE_STATE"]))
